@@ -8,6 +8,7 @@ import time
 
 import z3
 
+z3.set_param("warning", False)
 _V = z3.Datatype("Val")
 _V.declare("VNone")
 _V.declare("VBool", ("bv", z3.BoolSort()))
